@@ -358,6 +358,5 @@ theorem hazardFree_fixed (evs : List Event) : HazardFree Cfg.fixed evs := by
   | nil => rfl
   | cons ev rest ih => simp [hazardFreeFrom, hazard_fixed, ih]
 
-#print axioms inv_run
 
 end ParamVerif.Async
